@@ -75,6 +75,28 @@ def rand_garbage(rng, maxfr=4):
     return out
 
 
+def ref_recv(frs, stray_as_start):
+    """Reference reassembly (the property's reading): a start fragment opens a frame of the
+    announced length, continuations extend it, the announced prefix is delivered on ATT (4) /
+    SMP (6) when non-empty; a continuation with nothing pending is dropped
+    (stray_as_start=False) or, as the present code does, taken as a start (True)."""
+    fifo, exp, out = None, 0, []
+    def route(fr):
+        cid, pl = fr[2] | (fr[3] << 8), fr[4:]
+        if pl and cid in (4, 6):
+            out.append((cid, bytes(pl)))
+    for flag, d in frs:
+        if flag and fifo is not None:
+            fifo += d
+            if len(fifo) >= exp:
+                route(fifo[:exp]); fifo = None
+        elif (not flag or stray_as_start) and len(d) >= 2:
+            fifo, exp = bytes(d), (d[0] | (d[1] << 8)) + 4
+            if len(fifo) >= exp:
+                route(fifo[:exp]); fifo = None
+    return out
+
+
 def run(ctx):
     C.build_dir(PID, clean=True)
     ctx.cov["trusted_base"] = [
@@ -263,6 +285,16 @@ def run(ctx):
 
     # ---- verdict --------------------------------------------------------------
     ctx.log("correspondence (link layer): send %d cases %d bad; recv %d cases %d bad" % (len(ll_send_terms), len(bad_ls), len(ll_recv_terms), len(bad_lr)))
+    # ---- search on the disagreeing cases: is one of them a failing input of the property? ----
+    for b in bad_r[:50]:
+        i = recv_idx[b]
+        out = [(c, bytes.fromhex(h)) for c, h in r2["recv"][i]["out"]]
+        if out != ref_recv(recv_cases[i], False) and out != ref_recv(recv_cases[i], True):
+            ctx.violation("PDUs delivered for this fragment sequence are not those of any admissible reassembly "
+                          "(a PDU was lost, altered, or bytes of different PDUs were mixed)",
+                          {"op": "recv", "frags": [[f, d.hex()] for f, d in recv_cases[i]], "kind": meta[i]["kind"]},
+                          expected=[[c, d.hex()] for c, d in ref_recv(recv_cases[i], False)], observed=r2["recv"][i]["out"])
+            break
     if bad_s or bad_r or bad_ls or bad_lr or not proofs_ok:
         if not ctx.violations:
             first = None
